@@ -75,6 +75,17 @@ sim::Json generate(const std::string& tier, uint64_t seed, uint64_t index) {
     sim::Json rounds = sim::Json::array(); rounds.push(rd);
     ses.set("rounds", rounds);
     sc.set("session", ses);
+  } else if (rng.chance(0.1)) {
+    // the C API with no option list at all (NULL): everything, the objective selection included, comes from the environment
+    std::string all = sc["env"]["simdrv_options"].as_str();
+    for (size_t k = 2; k < sc["argv"].size(); ++k) { std::string a = sc["argv"][k].as_str(); if (a != "-AMPL" && a.compare(0, 8, "wantsol=") != 0) all += (all.empty() ? "" : " ") + a; }
+    sc.ref("env").set("simdrv_options", all);
+    sim::Json ses = sim::Json::object();
+    ses.set("load_options", sim::Json::array()); ses.set("load_options_null", true); ses.set("api_options", sim::Json::array());
+    sim::Json rd = sim::Json::object(); rd.set("script", sc["script"]); rd.set("solfile", sim::Json());
+    sim::Json rounds = sim::Json::array(); rounds.push(rd);
+    ses.set("rounds", rounds);
+    sc.set("session", ses);
   }
   return sc;
 }
@@ -111,7 +122,7 @@ void judge(const sim::Json& sc, const RunRecord& rec, sim::RunResult& r) {
   bool delivered = rec.stub.finish_phase;
   std::string allout = rec.out + rec.err;
   for (auto& m : rec.api_messages) allout += m;
-  if (sc.has("session")) r.stats.set("objno_via_api", 1);
+  if (sc.has("session")) r.stats.set(sc["session"]["load_options_null"].as_bool() ? "session_options_from_environment_only" : "objno_via_api", 1);
   auto sit = rec.files_after.find("stub.sol");
   oracle::SolFile sf;
   if (sit != rec.files_after.end()) { sf = oracle::parse_sol(sit->second); if (sf.ok) allout += sf.message_text(); }
